@@ -229,6 +229,11 @@ namespace nmtools::array
                     result = view.op(result,inp_data_ptr[i]);
                 }
 
+                // the initial value takes part in the reduction
+                if constexpr (!is_none_v<decltype(view.initial)>) {
+                    result = view.op(static_cast<element_type>(view.initial),result);
+                }
+
                 if constexpr (meta::is_num_v<output_t>) {
                     output = result;
                 } else {
@@ -348,6 +353,12 @@ namespace nmtools::array
                 default: {
                     return false;
                 } break;
+                }
+                // the initial value takes part in the reduction
+                if constexpr (!is_none_v<decltype(view.initial)>) {
+                    for (size_t i=0; i<out_size; i++) {
+                        out_data_ptr[i] = view.op(static_cast<element_type>(view.initial),out_data_ptr[i]);
+                    }
                 }
                 return true;
             }
